@@ -79,16 +79,19 @@ Definition session_ok (pv : Z) (r : request) : bool :=
   end.
 
 (* ---- second sentence of the property ------------------------------------------------------------------------- *)
-Definition qmsg_unsupported (pv : Z) (m : qmsg) : bool :=
-  (is_some (q_keyspace m) && negb (pv_uses_keyspace_flag pv))
-  || (is_some (q_cpo m) && negb (pv_has_continuous_paging_support pv))
+(* continuous paging below DSE_V1; serial consistency / paging on v1 *)
+Definition qmsg_unsupported_nk (pv : Z) (m : qmsg) : bool :=
+  (is_some (q_cpo m) && negb (pv_has_continuous_paging_support pv))
   || ((pv =? 1) && (is_some (truthy_z (q_serial m)) || is_some (truthy_z (q_fetch m)) || is_some (truthy_b (q_paging_state m)))).
+(* ... and a per-request keyspace below v5 / on DSE_V1 *)
+Definition qmsg_unsupported (pv : Z) (m : qmsg) : bool :=
+  (is_some (q_keyspace m) && negb (pv_uses_keyspace_flag pv)) || qmsg_unsupported_nk pv m.
 
 Definition carries_unsupported (pv : Z) (e : envelope) (r : request) : bool :=
   (negb (is_nil (e_payload e)) && (pv <? 4))
   || match r with
      | Query _ m => qmsg_unsupported pv m
-     | Execute _ _ m => qmsg_unsupported pv m
+     | Execute _ _ m => qmsg_unsupported_nk pv m        (* ExecuteMessage has no keyspace argument *)
      | Prepare _ ks => is_some ks && negb (pv_uses_keyspace_flag pv)
      | Batch _ _ _ serial ts ks => (is_some ks && negb (pv_uses_keyspace_flag pv))
                                    || ((pv <? 3) && (is_some (truthy_z serial) || is_some ts))
